@@ -278,6 +278,49 @@ def written_constants(mon, ds):
                 mon.scan_lambda(entry, s.query_ast.args[1])
 
 
+def subclass_values(ctx, ds):
+    """values whose type is a SUBCLASS of a listed type (float subclass, IntEnum / (str, Enum) member, str subclass with its own
+    __str__), alone and nested, at the entry points that embed through text: the literal holds the plain value"""
+    import enum
+
+    class GeV(float):
+        pass
+
+    class Col(enum.IntEnum):
+        RED = 1
+
+    class Color(str, enum.Enum):
+        RED = "red"
+
+    class Shout(str):
+        def __str__(self):
+            return "SHOUT!"
+
+    from func_adl.util_ast import as_ast
+
+    cases = [("as_ast", lambda v: as_ast(v)), ("MetaData.value", lambda v: ds.MetaData({"k": v}).query_ast.args[1].values[0]), ("MetaData.nested", lambda v: ds.MetaData({"k": [v, (v,)]}).query_ast.args[1].values[0].elts[0])]
+    for v, t, plain in [(GeV(3.5), float, 3.5), (Col.RED, int, 1), (Color.RED, str, "red"), (Shout("quiet'"), str, "quiet'")]:
+        for entry, fn in cases:
+            ctx.case(f"subclass|{entry}|{type(v).__name__}", True)
+            ctx.count("entry:subclass-of-a-listed-type")
+            try:
+                got = ast.literal_eval(fn(v))
+            except Exception as e:
+                ctx.violation(f"raised:{entry}:subclass:{type(e).__name__}", f"{entry}: value {v!r} of type {type(v).__name__} -> {type(e).__name__}: {str(e)[:120]}", {"entry": entry, "value": repr(v)})
+                continue
+            if got != plain or type(got) is not t:
+                ctx.violation(f"value-altered:{entry}:subclass", f"{entry}: gave {v!r} ({type(v).__name__}, plain value {plain!r}), query holds {got!r} ({type(got).__name__})", {"entry": entry, "value": repr(v)})
+    for col in (Color.RED, Shout("pt")):
+        ctx.case(f"subclass|column|{type(col).__name__}", True)
+        try:
+            got = ast.literal_eval(ds.AsAwkwardArray([col]).query_ast.args[1].elts[0])
+            want = str.__str__(col)
+            if got != want or type(got) is not str:
+                ctx.violation("value-altered:column:subclass", f"column name {col!r}: query holds {got!r}", {"entry": "column", "value": repr(col)})
+        except Exception as e:
+            ctx.violation(f"raised:column:subclass:{type(e).__name__}", f"column name {col!r}: {type(e).__name__}: {str(e)[:120]}", {"entry": "column", "value": repr(col)})
+
+
 def shard_main(ctx):
     if ctx.shard == 1 % ctx.nshards and ctx.tier == "thorough":
         from ..core import repo_tests_under_monitors
@@ -289,6 +332,7 @@ def shard_main(ctx):
     rnd = ctx.rnd
     written_constants(mon, ds)
     if ctx.shard == 0:
+        subclass_values(ctx, ds)
         for p in valgen.PAYLOADS:
             run_value(mon, ds, capmod, p, rnd)
         for v in [0.0, -0.0, 1e300, 5e-324, 10**40, True, None, b"a'b", [], (), {}, (1,), [("a", 1.5)], {"a'": ["b\\"]}]:
